@@ -634,8 +634,62 @@ def stream_payloads(ctx):
             break
 
 
+# ----------------------------------------------------------------------------- (vi) the program simply ends
+def stream_exit(ctx):
+    """no loss at normal interpreter exit: the owner never calls remove()/complete(); the queue is drained by the
+    clean-up loguru registers at import - in every start-up environment (default handler installed or not)"""
+    import subprocess
+    rng = ctx.rng.fork("exit")
+    envs = [("default", {}, False), ("autoinit_off", {"LOGURU_AUTOINIT": "False"}, False), ("no_stderr", {}, True)]
+    hows = ["return", "sys_exit", "exception"]
+    cases = [(e, h) for e in envs for h in hows]
+    if ctx.quick:
+        cases = [cases[i] for i in (0, 4, 8, 3, 7)]
+    for (ename, extra_env, close_err), how in cases:
+        base = tempfile.mkdtemp(prefix="verif_c03x_")
+        path = os.path.join(base, "out.log")
+        nthr, k = rng.range(1, 3), rng.range(10, 40)
+        env = dict(os.environ, PYTHONPATH=core.REPO + os.pathsep + core.VERIF)
+        env.pop("LOGURU_AUTOINIT", None)
+        env.update(extra_env)
+        bad = []
+        try:
+            p = subprocess.run(["/venv/bin/python", "-m", "harness.c03_child", "exit",
+                                json.dumps([core.REPO, path, nthr, k, how])], cwd=core.VERIF, env=env, timeout=120,
+                               stdout=subprocess.PIPE, stderr=subprocess.PIPE, text=True,
+                               preexec_fn=(lambda: os.close(2)) if close_err else None)
+            want_rc = {"return": 0, "sys_exit": 3, "exception": 1}[how]
+            if p.returncode != want_rc:
+                bad.append("the program ended with status %r instead of %r: %s" % (p.returncode, want_rc, p.stderr[-300:]))
+            lines = open(path, encoding="utf8").read().split("\n")[:-1] if os.path.exists(path) else []
+            expected = ["T%d-%d" % (j, i) for j in range(nthr) for i in range(k)]
+            if sorted(lines) != sorted(expected):
+                missing = sorted(set(expected) - set(lines))
+                bad.append("program ending by %s (%s): %d of %d accepted messages were never written, e.g. %r"
+                           % (how, ename, len(missing), len(expected), missing[:3]) if missing else
+                           "program ending by %s (%s): written lines differ from the accepted messages (%d vs %d)"
+                           % (how, ename, len(lines), len(expected)))
+            else:
+                last = {}
+                for l in lines:
+                    tag, i = l.rsplit("-", 1)
+                    if last.get(tag, -1) >= int(i):
+                        bad.append("producer %s: %s written out of order" % (tag, l))
+                        break
+                    last[tag] = int(i)
+        except subprocess.TimeoutExpired:
+            bad.append("program ending by %s (%s) did not terminate within 120 s" % (how, ename))
+        finally:
+            shutil.rmtree(base, ignore_errors=True)
+        ctx.case(("exit", ename, how, nthr, k), nontrivial=True)
+        ctx.stat("exit:" + ename)
+        if bad:
+            ctx.violation(bad[0], {"stream": "exit", "env": ename, "how": how, "nthr": nthr, "k": k, "violations": bad})
+            break
+
+
 def run(ctx):
-    for stream in (stream_shapes, stream_payloads, stream_sched, stream_mp, stream_asyncio):
+    for stream in (stream_shapes, stream_payloads, stream_exit, stream_sched, stream_mp, stream_asyncio):
         stream(ctx)
         if ctx.violations and getattr(ctx, "search_boost", False):
             return           # enlarged search after a broken obligation: a failing input has been found
